@@ -21,7 +21,7 @@ def demo_cmds(wt):
     h = how.replace(seed_wt + ".out", "@@OUT@@").replace(seed_wt, wt).replace("@@OUT@@", seed_wt + ".out")
     cps = re.findall(r"cp\s+\S+\s+\S+", h)
     tests = re.findall(r"(?:timeout\s+\d+\s+)?go\s+(?:test|run)\s+[^;&#\n]*", h)
-    extra = re.findall(r"(?:bash|sh)\s+\S+\.sh[^;&#\n]*", h)
+    extra = re.findall(r"(?:(?:bash|sh)\s+)?/\S+\.sh[^;&#\n]*", h)
     return cps, tests + extra
 
 def run_demo(wt):
